@@ -10,6 +10,8 @@ package main
 //   "fan"  : multiread fan-out: what each pipe reader is handed, for given request sizes
 //   "sig"  : small structured builds at the real 64 KiB block size: the hashes read back from the
 //            diff-time signature stream and the groups of pwr.ComputeHashInfo
+//   "hinfo", "vfile" (c04_repaired.go): ComputeHashInfo on signatures with too few / too many
+//            hashes; validation of files shorter / longer than signed or damaged, wound for wound
 // plus oracle-only build cases ("build") for everything too large to spell out in a case file.
 // The oracle recomputes every hash from the build's bytes with its own weak hash and crypto/md5.
 
@@ -59,7 +61,13 @@ func runC04(c *Ctx) error {
 	if err := c04Csig(c); err != nil {
 		return err
 	}
-	return c04Fan(c)
+	if err := c04Fan(c); err != nil {
+		return err
+	}
+	if err := c04Hinfo(c); err != nil { // c04_repaired.go
+		return err
+	}
+	return c04Vfile(c) // c04_repaired.go
 }
 
 // ---------------------------------------------------------------- chunky readers
